@@ -37,7 +37,8 @@ RULE = (
     'steps are retained; sliceDimensions must return.  Non-trivial: >= 2 '
     'dimensions windowed, or a negative int, or a window touching either '
     'edge of its dimension without covering it, or a retained time range '
-    'lying on more than one date.  Distinct by sha1 of the case spec.')
+    'lying on more than one date.  Distinct by sha1 of the case spec.  In '
+    'addition a finite sub-domain is enumerated: ' + 'see exhaustive_scope.')
 ASSUMPTIONS = [
     'index lists and strides other than 1 are outside the statement',
     'the source file decodes its own times (C12 judges getTimes itself); '
@@ -115,6 +116,52 @@ def cases(draw, tier='quick'):
 
 def strategy(tier):
     return cases(tier)
+
+
+ENUM_FILE = dict(ftype=1, route='arrays', vars=['O3', 'NO2'], nt=4, nz=3,
+                 ny=3, nx=4, sdate=2019365, stime=180000, tstep=60000,
+                 xorig=-1000.5, yorig=500.25, xcell=250.0, ycell=125.5,
+                 vglvls=[1.0, 0.75, 0.5, 0.0], dmul=1, crossing=True)
+EXHAUSTIVE_NOTE = (
+    'one fixed from_arrays file (4 steps of 6 h from 2019-12-31 18:00, 3 '
+    'layers, 3 rows, 4 columns): every window of one dimension and every '
+    'pair of windows of two dimensions (quick), every combination over all '
+    'four dimensions including "untouched" (thorough); a window is every int '
+    'in [-n, n-1] and every slice(a, b) with 0 <= a < b <= n')
+
+
+def _all_windows(n):
+    out = [['int', i] for i in range(-n, n)]
+    for a in range(n):
+        for b in range(a + 1, n + 1):
+            out.append(['slice', [a, b, None]])
+    return out
+
+
+def enumerate_cases(tier):
+    import itertools
+    fs = ENUM_FILE
+    dl = [('TSTEP', fs['nt']), ('LAY', fs['nz']), ('ROW', fs['ny']),
+          ('COL', fs['nx'])]
+    if tier == 'thorough':
+        opts = [[None] + _all_windows(n) for d, n in dl]
+        for combo in itertools.product(*opts):
+            win = [[d] + w for (d, n), w in zip(dl, combo) if w is not None]
+            if win:
+                yield dict(file=fs, win=win)
+        return
+    for d, n in dl:
+        for w in _all_windows(n):
+            yield dict(file=fs, win=[[d] + w])
+    for (d1, n1), (d2, n2) in itertools.combinations(dl, 2):
+        for w1 in _all_windows(n1):
+            for w2 in _all_windows(n2):
+                yield dict(file=fs, win=[[d2] + w2, [d1] + w1])
+
+
+def finish(stats):
+    if stats.enumerated:
+        stats.exhaustive = True
 
 
 # ------------------------------------------------------------------ oracle
